@@ -173,6 +173,14 @@ def run_case(sc: Dict[str, Any]) -> Outcome:
     bound = max(T0, min(D, T0 + Wv)) + 1.0
     late = (R is None and bound < INF_T) or (R is not None and R > bound)
     running = sum(1 for i in taken if i in enter and enter[i] <= T0 and fin.get(i, inf) > T0)
+    # execution slots in use when the last message was taken: a message holds its slot from the start of its callback (under when_received:
+    # from its acknowledgement, which may take a while) - not only from the start of its task function
+    t_last = max([s] + [e[0] for n_, e in takes])
+    began = {}
+    for e in tr:
+        if e[1] in ("ack", "enter") and e[2] not in began:
+            began[e[2]] = e[0]
+    running = max(running, sum(1 for i in taken if i in began and began[i] <= t_last and fin.get(i, inf) > t_last))
     not_started = sum(1 for i in taken if i not in enter)
     out.info = {"W": W, "running_at_T0": running, "A": A, "T0": T0, "bound": bound, "R": R, "D": None if D == inf else D}
     if late:
